@@ -35,6 +35,7 @@ type GroupCfg struct {
 	FanOut   int     `json:"fanout"`
 	MaxSteps int64   `json:"max_steps"`
 	ZeroStubs  []string `json:"zero_stubs"`
+	SkipInit   bool     `json:"skip_init"` // do not run the package's own init; the harness sets the globals it needs
 	Strace     bool     `json:"strace"` // native replay under strace: real system-call paths are checked against the sandbox root
 	Instrument []string `json:"instrument"` // repo files (relative) that get Yield points (G2)
 }
@@ -185,7 +186,11 @@ func cmdCheck(args []string) {
 		}
 		tl := time.Now()
 		pkgPath := "github.com/safing/portbase/" + g.Package
-		ld, err := loadProgram(*repo, ov, []string{"./" + g.Package}, append(append([]string{}, g.Init...), pkgPath))
+		inits := append([]string{}, g.Init...)
+		if !g.SkipInit {
+			inits = append(inits, pkgPath)
+		}
+		ld, err := loadProgram(*repo, ov, []string{"./" + g.Package}, inits)
 		if err != nil {
 			// The harness no longer type-checks against the tree: machinery
 			// error, no verdict.
@@ -198,6 +203,9 @@ func cmdCheck(args []string) {
 		}
 		for _, z := range g.ZeroStubs {
 			ld.zeroStubs[z] = true
+		}
+		if g.SkipInit {
+			ld.zeroPkgs[pkgPath] = true
 		}
 		loadS += time.Since(tl).Seconds()
 		pkg := ld.pkgs[pkgPath]
